@@ -9,6 +9,12 @@ apply.rs::apply_plan, undo.rs::undo_renaming and undo.rs::redo_renaming.  `RMode
   redoPrevalidate  redo_renaming compares every hunk's recorded text at its recorded offsets
                    (`.get(hunk.start..hunk.end)`) before `apply_plan(`, and returns an error on a mismatch
 
+  planBeforeEntry  apply_plan writes plans/<id>.json BEFORE `history.add_entry` (6667a82: the entry is the commit point; the
+                   stored plan is removed again when the entry cannot be recorded); false = entry first, then the plan
+  revertIdOfRoot   undo_renaming builds the revert id on something else than `entry.id` — recognised: `root_plan_id(&entry.id)`
+                   (the plan id with the `redo-…-<ts>` wrapping stripped); an unrecognised expression is reported in
+                   `unrecognised` (evidence) and treated as `entry.id`: the CLI-vs-model comparison then decides
+
 A wrong flag shows up as a disagreement between the CLI and `histrun` in checks/c10.py.  Anchors the model relies on
 (`history.add_entry` at the end of apply_plan, the `revert_of` scans, `apply_single_patch`, `apply_plan(` in redo) must be
 present, otherwise the translator raises.
@@ -65,8 +71,10 @@ def flags(repo):
     state_new = need(apply_b, r"ApplyState::new\(", "apply_plan without ApplyState::new")
     add_entry = need(apply_b, r"history\.add_entry\(", "apply_plan no longer records the operation with history.add_entry")
     store_plan = need(apply_b, r'plans_dir\.join\(format!\("\{\}\.json", plan\.id\)\)', "apply_plan no longer stores the plan under plans/<id>.json")
-    if not add_entry < store_plan:
-        raise RuntimeError("translate/history_flags: apply_plan stores the plan before it records the history entry")
+    plan_first = store_plan < add_entry
+    if plan_first and not re.search(r"if let Err\(\w+\) = history\.add_entry\(history_entry\)\s*\{[^}]*remove_file\(&plan_path\)", apply_b, re.S):
+        raise RuntimeError("translate/history_flags: apply_plan stores the plan before the history entry but does not remove it "
+                           "when the entry cannot be recorded: the model of C10 does not describe this code")
     need(undo_b, r"revert_of\.as_ref\(\)\s*==\s*Some\(&entry\.id\)", "undo_renaming without the `revert_of == id` scan")
     need(undo_b, r"revert_of\.is_some\(\)", "undo_renaming no longer refuses revert entries")
     first_rename = need(undo_b, r"fs::rename\(", "undo_renaming without fs::rename")
@@ -74,8 +82,19 @@ def flags(repo):
     need(undo_b, r"history\.add_entry\(revert_entry\)", "undo_renaming no longer records a revert entry")
     need(redo_b, r"revert_of\.as_ref\(\)\s*==\s*Some\(&entry\.id\)", "redo_renaming without the `revert_of == id` scan")
     redo_apply = need(redo_b, r"apply_plan\(&mut plan", "redo_renaming no longer goes through apply_plan")
-    need(redo_b, r'plan\.id = format!\("redo-\{\}-\{\}", id, chrono::Local::now\(\)\.timestamp\(\)\)', "redo id format changed")
-    need(undo_b, r'format!\("revert-\{\}-\{\}", entry\.id, chrono::Local::now\(\)\.timestamp\(\)\)', "revert id format changed")
+    unrecognised = []
+    m = re.search(r'plan\.id\s*=\s*format!\(\s*"redo-\{\}-\{\}"\s*,\s*(.+?)\s*,\s*chrono::Local::now\(\)\.timestamp\(\)\s*,?\s*\)', redo_b, re.S)
+    if not m:
+        raise RuntimeError("translate/history_flags: redo_renaming no longer names the redo `redo-<id>-<unix seconds>`")
+    if re.sub(r"\s+", "", m.group(1)) != "id":
+        unrecognised.append("redo id built on `%s`" % re.sub(r"\s+", " ", m.group(1)))
+    m = re.search(r'format!\(\s*"revert-\{\}-\{\}"\s*,\s*(.+?)\s*,\s*chrono::Local::now\(\)\.timestamp\(\)\s*,?\s*\)', undo_b, re.S)
+    if not m:
+        raise RuntimeError("translate/history_flags: undo_renaming no longer names the revert `revert-<id>-<unix seconds>`")
+    rexpr = re.sub(r"\s+", "", m.group(1))
+    revert_root = rexpr == "root_plan_id(&entry.id)"
+    if not revert_root and rexpr != "entry.id":
+        unrecognised.append("revert id built on `%s`" % re.sub(r"\s+", " ", m.group(1)))
 
     dup = pos(apply_b, r"find_entry\(&plan\.id\)\s*\.is_some\(\)")
     early = dup is not None and dup < state_new and "return Err" in apply_b[dup:state_new]
@@ -93,7 +112,8 @@ def flags(repo):
 
     val = pos(redo_b, r"\.get\(\s*hunk\.start\s*\.\.\s*hunk\.end\s*\)")
     redo_pre = val is not None and val < redo_apply and "return Err" in redo_b[val:redo_apply]
-    return {"earlyDupCheck": early, "redoOnce": redo_once, "undoPrevalidate": undo_pre, "redoPrevalidate": redo_pre}
+    return {"earlyDupCheck": early, "redoOnce": redo_once, "undoPrevalidate": undo_pre, "redoPrevalidate": redo_pre,
+            "planBeforeEntry": plan_first, "revertIdOfRoot": revert_root, "unrecognised": unrecognised}
 
 
 def render(fl):
@@ -101,7 +121,7 @@ def render(fl):
     return ("/- GENERATED by translate/history_flags.py from renamify-core/src/apply.rs and undo.rs — do not edit.\n"
             "   Which history-safety checks the code has today; `History.Cfg.current` is built from these. -/\n"
             "namespace Gen.HistoryFlags\n\n"
-            + "".join(f"def {k} : Bool := {b(v)}\n" for k, v in fl.items())
+            + "".join(f"def {k} : Bool := {b(v)}\n" for k, v in fl.items() if isinstance(v, bool))
             + "\nend Gen.HistoryFlags\n")
 
 
